@@ -222,6 +222,12 @@ def run(ctx):
     rep.rule("C20.R4", "Solution fields are array expressions of the row lists", 40)
     rep.rule("C20.R5", "ScipyIVP / ScipyDAE field shapes", 8)
     rep.rule("C20.R6", "the step loop's iterable is a function of the initial time, the final time and the step", 4)
+    rep.rule("C20.R7", "row k of every stored field still is what was stored at instant k (K11 may-alias analysis)", 8)
+    from .. import alias
+    S_ = "cardillo/solver/"
+    alias.report(rep, "C20.R7", ctx.repo, [(S_ + "rattle.py", "Rattle"), (S_ + "backward_euler.py", "BackwardEuler"), (S_ + "moreau.py", "Moreau"),
+                                           (S_ + "dual_stormer_verlet.py", "DualStormerVerlet"), (S_ + "statics.py", "Riks"),
+                                           (S_ + "statics.py", "Newton"), (S_ + "scipy_ivp.py", "ScipyIVP"), (S_ + "scipy_dae.py", "ScipyDAE")])
     r6_step_count(ctx)
     for rel, q, stepq in SOLVERS:
         fn = ctx.repo.get(rel, q)
